@@ -715,22 +715,26 @@ package xmpp
 //@   ghost wroteEnd bool = false
 //@   ghost flushed bool = false
 //@   ghost st0 SessionState
+//@   ghost held bool = false
 //@   callsite (sync.Locker).Lock#1
 //@     havoc s.state
 //@     after: st0 = s.state
+//@     after: held = true
+//@   callsite (sync.Locker).Unlock#1
+//@     after: held = false
 //@   callsite foreign#*
 //@     preserves s.state
 //@   callsite setWriteDeadline#1
 //@     preserves s.state
 //@   callsite EncodeToken#1
 //@     assert[C10] !outClosed(s.state)
-//@     assert[C05] typeof(arg1) == xml.StartElement && !wroteStart
+//@     assert[C05] typeof(arg1) == xml.StartElement && !wroteStart && held
 //@     preserves s.state, *cur(start)
 //@     after: startName = arg1.(xml.StartElement).Name
 //@     after: wroteStart = ret0 == nil
 //@   callsite mellium.im/xmlstream.Copy#1
 //@     assert[C10] !outClosed(s.state)
-//@     assert[C05] wroteStart && !wroteEnd
+//@     assert[C05] wroteStart && !wroteEnd && held
 //@     preserves s.state, *cur(start)
 //@   callsite EncodeToken#2
 //@     assert[C10] !outClosed(s.state)
@@ -739,7 +743,7 @@ package xmpp
 //@     after: wroteEnd = ret0 == nil
 //@   callsite Flush#1
 //@     assert[C10] !outClosed(s.state)
-//@     assert[C05] wroteEnd
+//@     assert[C05] wroteEnd && held
 //@     preserves s.state
 //@     after: flushed = ret0 == nil
 //@   ensures[C10] outClosed(st0) ==> result == ErrOutputStreamClosed
@@ -747,31 +751,39 @@ package xmpp
 
 //@ func (*Session).Encode
 //@   ghost st0 SessionState
+//@   ghost held bool = false
 //@   callsite (sync.Locker).Lock#1
 //@     havoc s.state
 //@     after: st0 = s.state
+//@     after: held = true
+//@   callsite (sync.Locker).Unlock#1
+//@     after: held = false
 //@   callsite foreign#*
 //@     preserves s.state
 //@   callsite setWriteDeadline#1
 //@     preserves s.state
 //@   callsite mellium.im/xmpp/internal/marshal.EncodeXML#1
 //@     assert[C10] !outClosed(s.state)
-//@     assert[C05] arg0 == s.out.e && arg1 == v
+//@     assert[C05] arg0 == s.out.e && arg1 == v && held
 //@     preserves s.state
 //@   ensures[C10] outClosed(st0) ==> result == ErrOutputStreamClosed
 
 //@ func (*Session).EncodeElement
 //@   ghost st0 SessionState
+//@   ghost held bool = false
 //@   callsite (sync.Locker).Lock#1
 //@     havoc s.state
 //@     after: st0 = s.state
+//@     after: held = true
+//@   callsite (sync.Locker).Unlock#1
+//@     after: held = false
 //@   callsite foreign#*
 //@     preserves s.state
 //@   callsite setWriteDeadline#1
 //@     preserves s.state
 //@   callsite mellium.im/xmpp/internal/marshal.EncodeXMLElement#1
 //@     assert[C10] !outClosed(s.state)
-//@     assert[C05] arg0 == s.out.e && arg1 == v && arg2 == start
+//@     assert[C05] arg0 == s.out.e && arg1 == v && arg2 == start && held
 //@     preserves s.state
 //@   ensures[C10] outClosed(st0) ==> result == ErrOutputStreamClosed
 
@@ -848,6 +860,7 @@ package xmpp
 //@     assert[C05] typeof(t) == xml.StartElement && old(se.depth) == 0 && stanzaName(t.(xml.StartElement).Name) ==> arg1.(xml.StartElement).Name.Space == ite(t.(xml.StartElement).Name.Space == "", old(se.ns), t.(xml.StartElement).Name.Space)
 //@     assert[C05] typeof(t) == xml.StartElement && old(se.depth) == 0 && stanzaName(t.(xml.StartElement).Name) ==> exists i int :: 0 <= i && i < len(arg1.(xml.StartElement).Attr) && isID(arg1.(xml.StartElement).Attr[i])
 //@     assert[C05,thorough] typeof(t) == xml.StartElement && old(se.depth) == 0 && stanzaName(t.(xml.StartElement).Name) && fromStr != "" ==> exists i int :: 0 <= i && i < len(arg1.(xml.StartElement).Attr) && isFrom(arg1.(xml.StartElement).Attr[i])
+//@     assert[C05] typeof(t) == xml.StartElement && arg1.(xml.StartElement).Name.Space != "" ==> forall i int :: 0 <= i && i < len(arg1.(xml.StartElement).Attr) ==> arg1.(xml.StartElement).Attr[i].Name.Local != "xmlns"
 //@     assert[C05] typeof(t) == xml.EndElement ==> arg1.(xml.EndElement).Name.Local == t.(xml.EndElement).Name.Local && arg1.(xml.EndElement).Name.Space == ite(old(se.depth) == 1 && t.(xml.EndElement).Name.Space == "" && stanzaName(t.(xml.EndElement).Name), old(se.ns), t.(xml.EndElement).Name.Space)
 //@     preserves se.depth
 //@   ensures[C05] se.depth == old(se.depth) + ite(typeof(t) == xml.StartElement, 1, ite(typeof(t) == xml.EndElement, -1, 0))
@@ -857,6 +870,7 @@ package xmpp
 //@     invariant[C05] foundFrom ==> exists j int :: 0 <= j && j < len(attrs) && isFrom(attrs[j])
 //@   loop 2
 //@     invariant[C05] len(attrs) <= rangeindex + 1 && len(attrs) >= 0 && samearray(attrs, tok.Attr) && cap(attrs) >= len(tok.Attr)
+//@     invariant[C05] tok.Name.Space != "" ==> forall j int :: 0 <= j && j < len(attrs) ==> attrs[j].Name.Local != "xmlns"
 //@     invariant[C05] old(se.depth) == 0 && stanzaName(t.(xml.StartElement).Name) ==> (exists j int :: 0 <= j && j < len(attrs) && isID(attrs[j])) || (exists j int :: rangeindex < j && j < len(tok.Attr) && isID(tok.Attr[j]))
 //@     invariant[C05,thorough] old(se.depth) == 0 && stanzaName(t.(xml.StartElement).Name) && fromStr != "" ==> (exists j int :: 0 <= j && j < len(attrs) && isFrom(attrs[j])) || (exists j int :: rangeindex < j && j < len(tok.Attr) && isFrom(tok.Attr[j]))
 
